@@ -6,6 +6,7 @@ import (
 	"sort"
 	"strconv"
 	"strings"
+	"time"
 	"unicode/utf8"
 
 	"github.com/pentops/j5/gen/test/schema/v1/schema_testpb"
@@ -108,7 +109,12 @@ func loadFixedTargets() ([]*target, error) {
 
 // byte strings of the cases files are written packed (lib/Pack.v): Coq reads them several times faster
 // and long documents no longer overflow coqc's stack
-func init() { codecgen.Packed = true }
+func init() {
+	codecgen.Packed = true
+	// the process's local time zone is not UTC: "timestamps as RFC3339 in UTC" must hold whatever
+	// time.Local is (time.Unix returns local times)
+	time.Local = time.FixedZone("VERIF+1030", 10*3600+1800)
+}
 
 func envHeader(ts []*target) string {
 	var sb strings.Builder
